@@ -130,6 +130,9 @@ impl Property for C01 {
     fn tape_len(&self, _t: Tier) -> usize {
         420
     }
+    fn fuzz_runs(&self, _tier: Tier) -> u64 {
+        40_000
+    }
     fn random_cases(&self, tier: Tier) -> u64 {
         tier.pick(60_000, 1_500_000)
     }
